@@ -489,23 +489,35 @@ func lexString(l *lexer) stateFn {
 
 // stringEnd returns the offset in s of the quote that closes a string opened
 // with the given quote, or -1. Inside a double-quoted string an interpolation
-// may hold strings of its own, whose quotes do not end the outer string.
+// may hold strings of its own, whose quotes do not end the outer string; if
+// the interpolations are not well formed, the next quote ends the string.
 func stringEnd(s string, open string) int {
 	if open == `"` {
-		for i := 0; i < len(s); i++ {
-			if s[i] == '"' {
-				return i
-			}
-			if strings.HasPrefix(s[i:], delimOpenInterpolate) {
-				n := interpolationEnd(s[i+len(delimOpenInterpolate):])
-				if n < 0 {
-					break
-				}
-				i += len(delimOpenInterpolate) + n
-			}
+		if n := interpolatedStringEnd(s); n >= 0 {
+			return n
 		}
 	}
 	return strings.Index(s, open)
+}
+
+// interpolatedStringEnd returns the offset in s of the double quote that
+// closes a double-quoted string, skipping over well-formed interpolations. It
+// returns -1 as soon as anything is left unclosed, so that the scan is linear
+// in the length of s.
+func interpolatedStringEnd(s string) int {
+	for i := 0; i < len(s); i++ {
+		if s[i] == '"' {
+			return i
+		}
+		if strings.HasPrefix(s[i:], delimOpenInterpolate) {
+			n := interpolationEnd(s[i+len(delimOpenInterpolate):])
+			if n < 0 {
+				return -1
+			}
+			i += len(delimOpenInterpolate) + n
+		}
+	}
+	return -1
 }
 
 // interpolationEnd returns the offset in s of the brace that closes an
@@ -514,8 +526,14 @@ func interpolationEnd(s string) int {
 	depth := 0
 	for i := 0; i < len(s); i++ {
 		switch s[i] {
-		case '\'', '"':
-			n := stringEnd(s[i+1:], s[i:i+1])
+		case '\'':
+			n := strings.IndexByte(s[i+1:], '\'')
+			if n < 0 {
+				return -1
+			}
+			i += 1 + n
+		case '"':
+			n := interpolatedStringEnd(s[i+1:])
 			if n < 0 {
 				return -1
 			}
